@@ -145,14 +145,15 @@ CHECKS = {'C09': {'category': 'translation_validation',
                  "model, not a proof over all schedules. extract_min/extract_max: returned key present and empty only if empty are in the specification; 'no key present throughout is smaller/larger' "
                  'is a real-time oracle over the history.'},
  'C16': {'category': 'translation_validation',
-         'note': 'SC interleavings only (threads serialised by a baton at every atomic operation); explored schedules only (seeded random, PCT, exhaustive <=1/<=2 preemptions of small programs); '
-                 'memory orders not modelled; Lean kernel + propext/Classical.choice/Quot.sound for the checker theorem.',
-         'technique': 'Lean 4: histories of the real containers under a deterministic scheduler judged against the Lean sequential specification by a linearizability checker proved sound and '
-                      'complete in Lean',
-         'text': '23 variants (StripedSet/Map over list/set/flat buckets, striping and refinable policies with forced resizes; CuckooSet/Map striping/refinable, list/vector probe sets, stored hash '
-                 'on/off). The executable Lean model here is the sequential specification (Spec.mapConc) plus the definition of linearizability; the proved theorem is that the checker decides it '
-                 "exactly, so a history the real code produces is accepted iff it is linearizable. The containers' algorithms themselves are not yet modelled step by step: the claim is validation of "
-                 'every explored execution of the real code against the model, not a proof over all schedules. '},
+         'technique': 'Lean 4: StripedSet machine for the striping and refinable mutex policies proved linearizable to the map specification across resizes for all schedules + atomic-trace '
+                      'conformance of the real StripedSet + histories of every striped / cuckoo variant judged by the verified linearizability checker',
+         'text': 'C16_striped_linearizable, C16_refinable_linearizable, C16_striped_bucket_under_current_lock, C16_striped_resize_exclusive, C16_striped_no_loss_no_dup, C16_striped_resize_preserves '
+                 'hold for any number of threads, any hash function and any capacity 2^k; the refinable theorems need the owner / lock-array re-check of acquire() (without it the machine reaches a '
+                 'run proved non-linearizable). The real StripedSet is replayed against the machine (lock words per lock-array generation, owner, mask, counter, bucket operations and rehash with the '
+                 "table layout). CuckooSet/Map and the striped map forms have no machine: their histories are judged against Spec.mapConc on explored schedules (a livelock of cuckoo's try-lock loop "
+                 'under one unfair schedule is recorded, not a violation).',
+         'note': 'SC interleavings only; memory orders not modelled; the bucket containers (std::list etc.) are sequential code under a lock = one step; explored schedules only for the ties; Lean '
+                 'kernel + propext/Classical.choice/Quot.sound.'},
  'C23': {'category': 'translation_validation',
          'technique': 'Lean 4: 28-pc atomic-step machine of the flat-combining kernel with an 18-clause inductive invariant (mutual exclusion of combiners, exactly-once, response after execution, '
                       'pending not executed, owner republishes) for all schedules + batch theorems of the containers + histories of every flat-combining container and a reclamation oracle on the '
